@@ -286,13 +286,15 @@ FactoryVal(kind, d, i) ==
     [] kind = "posproj" -> [r \in 1..d |-> [c \in 1..d |-> IF r = c /\ r <= i THEN S1 ELSE S0]]
     [] kind = "negproj" -> [r \in 1..d |-> [c \in 1..d |-> IF r = c /\ r > d - i THEN S1 ELSE S0]]
 FactoryArgOK(kind, d, i) == ValidDim(d) /\ (kind = "generator" => i < d*d) /\ (kind \in {"projector","posproj","negproj"} => i < d)
-Factory(v, kind, d, i) ==
-  LET act == [A("Factory") EXCEPT !.t = v, !.op = kind, !.d = d, !.c = i] IN
+FactoryF(v, kind, d, i, fail) ==
+  LET act == [A("Factory") EXCEPT !.t = v, !.op = kind, !.d = d, !.c = i, !.fail = fail] IN
   /\ Dead(v)
-  /\ IF ~FactoryArgOK(kind, d, i) THEN Reject(act)
-     ELSE \E ch \in AllocSet(Heap, d, FALSE) :
+  /\ IF ~FactoryArgOK(kind, d, i) THEN fail = 0 /\ Reject(act)
+     ELSE IF fail = 1 THEN (Policy = "any" \/ cache[d] = {}) /\ Commit(vec, Heap, ebuf, "bad_alloc", act)
+     ELSE fail = 0 /\ \E ch \in AllocSet(Heap, d, FALSE) :
             Commit([vec EXCEPT ![v] = [live |-> TRUE, dim |-> d, loc |-> BlkLoc(ch.b), owns |-> TRUE, ext |-> FALSE]],
                    [ch.hp EXCEPT !.blk[ch.b].val = FactoryVal(kind, d, i)], ebuf, "ok", act)
+Factory(v, kind, d, i) == FactoryF(v, kind, d, i, 0)
 
 --------------------------------------------------------------------------
 \* Expressions:  t w op(a,b)   with w in {"=","+=","-="} ;  SU_vector t(op(a,b)) is w = "ctor".
@@ -351,7 +353,7 @@ AssignExpr(t, w, op, a, b, arv, brv, k, fail) ==
                                 [ch.hp EXCEPT !.blk[ch.b].val = E], ebuf, "ok", act)
 
 --------------------------------------------------------------------------
-ExprArgs == {x \in [op : OpsOn, arv : BOOLEAN, brv : BOOLEAN] :
+ExprArgs == {x \in [op : OpsOn \cap AllExprOps, arv : BOOLEAN, brv : BOOLEAN] :
                /\ (x.arv => Elementwise(x.op))
                /\ (x.brv => x.op \in {"add","elementwise"}) }
 FailSet == IF Faults THEN {0,1} ELSE {0}
@@ -372,6 +374,8 @@ Next ==
      \/ \E t \in Vecs, a \in Vecs, b \in Vecs, x \in ExprArgs, w \in {"=","+=","ctor"}, f \in FailSet :
           AssignExpr(t, w, x.op, a, IF Arity(x.op) = 1 THEN a ELSE b, x.arv, x.brv, 1, f)
      \/ ClearCache
+     \/ "list" \in OpsOn /\ \E v \in Vecs, d \in Dims, f \in FailSet : NewFromList(v, d*d, 1, f)
+     \/ "factory" \in OpsOn /\ \E v \in Vecs, kind \in {"projector","negproj","identity"}, d \in Dims, i \in {0,1}, f \in FailSet : FactoryF(v, kind, d, i, f)
 Spec == Init /\ [][Next]_vars
 
 --------------------------------------------------------------------------
@@ -432,7 +436,7 @@ NextGuard ==
         \/ \E t \in Vecs, a \in Vecs, b \in Vecs, op \in {"add","sub","icomm","acomm","evolve","elementwise"}, w \in {"=","+=","-=","ctor"} :
               Live(a) /\ Live(b) /\ vec[a].dim # vec[b].dim /\ AssignExpr(t, w, op, a, b, FALSE, FALSE, 1, 0)
         \* the overloads taking rvalue operands have their own guards
-        \/ \E t \in Vecs, a \in Vecs, b \in Vecs, x \in {y \in ExprArgs : y.op \in {"add","sub","elementwise"} /\ (y.arv \/ y.brv)}, w \in {"=","ctor"} :
+        \/ \E t \in Vecs, a \in Vecs, b \in Vecs, x \in {y \in ExprArgs : y.op \in {"add","sub","elementwise"} /\ (y.arv \/ y.brv)}, w \in {"=","+=","-=","ctor"} :
               Live(a) /\ Live(b) /\ vec[a].dim # vec[b].dim /\ AssignExpr(t, w, x.op, a, b, x.arv, x.brv, 1, 0)
 SpecGuard == Init /\ [][NextGuard]_vars
 EmitShape == IF nops = 1
